@@ -22,7 +22,7 @@ import z3
 
 _DECL = """
 (declare-datatypes ((Any 0)) (((absent) (none) (b (bv Bool)) (i (iv Int)) (s (sv String)) (o (ov Int))
-  (d (dv (Array String Any))) (l (lv (Seq Any))) (st (stv (Array String Bool))))))
+  (d (dv (Array String Any))) (l (lv (Seq Any))) (st (stv (Array String Bool))) (sti (stiv (Array Int Bool))))))
 (declare-const __x Any)
 (assert (= __x __x))
 """
@@ -58,6 +58,8 @@ BoolS = z3.BoolSort()
 DictS = z3.ArraySort(StrS, Any)
 ListS = z3.SeqSort(Any)
 SetS = z3.ArraySort(StrS, BoolS)
+ISetS = z3.ArraySort(IntS, BoolS)
+EMPTY_ISET = z3.K(IntS, z3.BoolVal(False))
 EMPTY_DICT = z3.K(StrS, ABSENT)
 EMPTY_SET = z3.K(StrS, z3.BoolVal(False))
 EMPTY_LIST = z3.Empty(ListS)
@@ -72,7 +74,7 @@ def dict_merge_term(x, y):
     return z3.Map(OVR, x, y)
 
 
-PAYLOAD_SORT = {"b": BoolS, "i": IntS, "s": StrS, "o": IntS, "d": DictS, "l": ListS, "st": SetS}
+PAYLOAD_SORT = {"b": BoolS, "i": IntS, "s": StrS, "o": IntS, "d": DictS, "l": ListS, "st": SetS, "sti": ISetS}
 
 _counter = itertools.count()
 
@@ -214,6 +216,8 @@ def truthy(v: Val):
         return z3.Length(v.e) > 0
     if t == "st":
         return v.e != EMPTY_SET
+    if t == "sti":
+        return v.e != EMPTY_ISET
     if t == "o":
         return z3.BoolVal(True)
     a = v.e
@@ -226,6 +230,7 @@ def truthy(v: Val):
         z3.Implies(recog("d")(a), acc("d")(a) != EMPTY_DICT),
         z3.Implies(recog("l")(a), z3.Length(acc("l")(a)) > 0),
         z3.Implies(recog("st")(a), acc("st")(a) != EMPTY_SET),
+        z3.Implies(recog("sti")(a), acc("sti")(a) != EMPTY_ISET),
     )
 
 
